@@ -30,6 +30,7 @@ RULE += (' ' + 'Round trip entry: element types of the flux and error sequences 
 RULE += (' ' + "Entry 'chars': lines whose tokens are built from arbitrary characters (digits, signs, exponents, separators, letters, non-ASCII digits), classified by the reference as must-parse / must-reject / either.")
 RULE += (' ' + 'The sources parsed within one case stay alive and are examined again after the later lines were read.')
 RULE += (' ' + 'Entry "datafile": fit() is given a data file with one line of 0..2 columns at any position; records exist for exactly the eligible sources before it.')
+RULE += (' ' + 'The parsed source of the round trip is edited in place (a flag, a flux, an error) and formatted and parsed once more.')
 ASSUMPTIONS = [
     'numeric tokens are plain decimal / exponent literals; nothing is claimed about exotic literals numpy may accept',
     'a token in a flag position that is not an integer literal but is numerically an allowed flag (e.g. 1.000e+00) '
@@ -423,7 +424,7 @@ def run_roundtrip(case, ctx):
         fail('ascii round trip changed the name: %r -> %r' % (case['name'], t.name), 'roundtrip:name')
     if t.valid is None or [int(v) for v in t.valid] != list(case['valid']):
         fail('ascii round trip changed the flags: %r -> %r' % (case['valid'], t.valid), 'roundtrip:flags')
-    if abs(t.x - case['x']) > 5.0001e-6 or abs(t.y - case['y']) > 5.0001e-6:
+    if not (abs(t.x - case['x']) <= 5.0001e-6) or not (abs(t.y - case['y']) <= 5.0001e-6):
         fail('ascii round trip moved the coordinates (%r, %r) -> (%r, %r)' % (case['x'], case['y'], t.x, t.y),
              'roundtrip:coords')
     for key in ('flux', 'error'):
@@ -432,9 +433,31 @@ def run_roundtrip(case, ctx):
             fail('ascii round trip changed the number of %s values' % key, 'roundtrip:length')
         for j in range(n):
             want = case[key][j]
-            if abs(float(got[j]) - want) > 5.0001e-4 * abs(want):
+            if not (abs(float(got[j]) - want) <= 5.0001e-4 * abs(want)):
                 fail('ascii round trip: %s[%d] %r -> %r (more than the printed precision)' % (
                     key, j, want, float(got[j])), 'roundtrip:value')
+    # the source that was parsed is revised (a bad point switched off, a value corrected in place, a new name) and formatted
+    # again: the new line says what the source now holds
+    if n >= 1:
+        j = (len(case['name']) + n) % n
+        new_flag = 0 if int(t.valid[j]) != 0 else 1
+        new_flux = float(t.flux[j]) * 2. + 1.25
+        new_err = abs(float(t.error[j])) + 0.5
+        with must_succeed('editing a parsed source in place and formatting it again'):
+            t.valid[j] = new_flag
+            t.flux[j] = new_flux
+            t.error[j] = new_err
+            line2 = t.to_ascii()
+            t2 = Source.from_ascii(line2)
+        want_flags = [int(v) for v in case['valid']]
+        want_flags[j] = new_flag
+        if [int(v) for v in t2.valid] != want_flags:
+            fail('a parsed source whose flag %d was set to %d in place formats as flags %r (expected %r)' % (
+                j, new_flag, [int(v) for v in t2.valid], want_flags), 'roundtrip:edit_after_parse')
+        if not (abs(float(t2.flux[j]) - new_flux) <= 5.0001e-4 * abs(new_flux)) or not (abs(float(t2.error[j]) - new_err) <= 5.0001e-4 * abs(new_err)):
+            fail('a parsed source whose values %d were set to (%r, %r) in place formats as (%r, %r)' % (
+                j, new_flux, new_err, float(t2.flux[j]), float(t2.error[j])), 'roundtrip:edit_after_parse')
+        labels.add('edited_after_parsing')
     return labels, n >= 1
 
 
